@@ -17,7 +17,7 @@ import (
 // ---------------------------------------------------------------------------------
 // B2
 
-var ruleB2 = &Rule{
+var ruleB2old = &Rule{
 	ID:    "B2",
 	Floor: 2,
 	Doc: "atomic buffer swap: in every method of the insert service that resets two or more of the shared batch fields (columns, results, size), all reads and writes of those fields happen inside one single critical section (one Lock … Unlock span / one Lock + deferred Unlock): " +
@@ -920,6 +920,8 @@ var ruleF5 = &Rule{
 		return obls
 	},
 }
+
+var _ = ruleB2old
 
 func init() { register(ruleB2, ruleO1, ruleD7, ruleH4, ruleF5) }
 
